@@ -1,6 +1,8 @@
 // Package utils provides shared utility functions used across the WTF application.
 package utils
 
+import "os"
+
 // Min returns the minimum of two integers.
 func Min(a, b int) int {
 	if a < b {
@@ -15,4 +17,21 @@ func Max(a, b int) int {
 		return a
 	}
 	return b
+}
+
+// WriteFileAtomic replaces the file at path with data. The content is written to a temporary
+// file next to it and moved into place with a rename, so that a write that is cut short (the
+// process is killed, the disk fills up, the write call fails) leaves the previous content of
+// path untouched instead of a truncated file. An error means path was not replaced.
+func WriteFileAtomic(path string, data []byte, perm os.FileMode) error {
+	tmp := path + ".tmp"
+	if err := os.WriteFile(tmp, data, perm); err != nil {
+		os.Remove(tmp)
+		return err
+	}
+	if err := os.Rename(tmp, path); err != nil {
+		os.Remove(tmp)
+		return err
+	}
+	return nil
 }
